@@ -42,7 +42,7 @@ theorem nextFrame_eq (tmin : α) (sqrt sin cos acos : α → α) (Mi : M44 α) (
   all_goals first
     | (exfalso; simp_all; done)
     | (ext i j; fin_cases i <;> fin_cases j <;>
-        simp [axisAngleM44, frameM44, aaRow0, aaRow1, aaRow2, nrm, transMat, M44.toMat, Matrix.mul_apply, Fin.sum_univ_four, vneg, vsub, *] <;> ring)
+        simp [axisAngleM44, frameM44, aaRow0, aaRow1, aaRow2, nrm, transMat, M44.toMat, Matrix.mul_apply, Fin.sum_univ_four, vneg, vsub, *] <;> ring1)
 /-- EVERY path (zero / parallel tangents included): an orthonormal right-handed previous frame with origin `pi` becomes an orthonormal
 right-handed frame with origin `pj`, its axes turned by the rotation `nextFrameRot` -/
 theorem nextFrame_frame (tmin : α) (sqrt sin cos acos : α → α) (hlen : LenSpec (Gen.V3.length tmin sqrt))
